@@ -4,6 +4,7 @@ branches, GC deletions, aborted tasks) on a real LMDB environment vs the Lean `t
 α = the whole key list after every task.  Search: the coherence predicate itself, evaluated on the
 implementation's keyspace with an independent re-implementation of the documented key layout.
 """
+import copy
 import random
 
 from lib import common, gen
@@ -25,10 +26,11 @@ def expected_keys(ev):
     pk = bytes.fromhex(ev.pubkey)
     convs = [b"\x01" + ts, b"\x02" + be4(ev.kind), b"\x03" + pk, b"\x04" + pk + b"\x00" + be4(ev.kind)]
     for t in ev.tags:
-        # indexable tag: single-letter name (or expiration / delegation) with a scalar value; a nested array has no
-        # text form that survives storage (list when written, tuple when read back), so it is not an attribute
+        # indexable tag: single-letter name (or expiration / delegation) with a scalar value; a nested array or object has
+        # no text form that survives storage (an array is a list when written and a tuple when read back, also inside an
+        # object), so it is not an attribute
         if len(t) >= 2 and isinstance(t[0], str) and (len(t[0]) == 1 or t[0] in ("expiration", "delegation")) \
-                and not isinstance(t[1], (list, tuple)):
+                and not isinstance(t[1], (list, tuple, dict)):
             convs.append(b"\x09" + t[0].encode() + b"\x00" + str(t[1]).encode())
     return {b"\x00" + i} | {c + b"\x00" + ts + b"\x00" + i for c in convs}
 
@@ -194,10 +196,25 @@ def jsonable(ops):
     return [list(o) for o in ops]
 
 
+NESTED_VALUES = [["n"], [], [["n"]], {"a": [1]}, {"a": 1}, {}, {"a": {"b": [1, [2]]}}, [{"a": [1]}], {"k": "v", "l": [True, None]}]
+
+
 def nested_history(rng):
-    """finding #14: nested-array tag value"""
-    e = gen.gen_event(rng, authors=gen.AUTHORS[:2], kinds=[1], times=[gen.T0])
-    e["tags"] = [["t", ["n"]]]
+    """finding #14 and its sequel: tag values that are JSON arrays / objects (also objects holding arrays), under indexable
+    names, next to scalar tags, removed by del, by a kind-5 deletion and by a replacement"""
+    kind = rng.choice([1, 1, 10002, 30023])
+    e = gen.gen_event(rng, authors=gen.AUTHORS[:1], kinds=[kind], times=[gen.T0])
+    e["tags"] = [[rng.choice(["t", "e", "d", "expiration"]), copy.deepcopy(rng.choice(NESTED_VALUES))]
+                 for _ in range(rng.choice([1, 1, 2, 3]))] + rng.choice([[], [["t", "plain"]]])
+    how = rng.choice(["del", "kind5", "replace"])
+    if how == "kind5" or (how == "replace" and kind == 1):
+        d = gen.gen_event(rng, authors=gen.AUTHORS[:1], kinds=[5], times=[gen.T0 + 5])
+        d["tags"] = [["e", e["id"]]]
+        return [("add", e), ("add", d)]
+    if how == "replace":
+        n = gen.gen_event(rng, authors=gen.AUTHORS[:1], kinds=[kind], times=[gen.T0 + 5])
+        n["tags"] = [t for t in copy.deepcopy(e["tags"]) if t[0] == "d"][:1]
+        return [("add", e), ("add", n)]
     return [("add", e), ("del", e["id"])]
 
 
@@ -226,7 +243,8 @@ def run(report, tier, seed):
         for i in range(n_hist):
             run_history(report, drv, impl, gen_history(rng, n_ops), i)
         for i in range(3 if tier == "quick" else 30):
-            run_history(report, drv, impl, nested_history(rng), "nested")
+            for _ in range(12 if tier == "quick" else 200):
+                run_history(report, drv, impl, nested_history(rng), "nested")
     finally:
         impl.close()
         drv.close()
